@@ -283,7 +283,7 @@ impl Scenario for W3Scenario {
     }
     fn cases(&self, tier: Tier) -> u64 {
         match tier {
-            Tier::Quick => 24_000,
+            Tier::Quick => 60_000,
             Tier::Thorough => 300_000,
         }
     }
